@@ -345,6 +345,9 @@ func (e *Engine) doPanic(s *State, msg string) []*State {
 			// pop frames above and including i; deliver result "panicked" to caller
 			onret := f.OnRet
 			retTo := f.RetTo
+			e.mu.Lock()
+			e.PanicSites["caught by "+f.Barrier+": "+site]++
+			e.mu.Unlock()
 			s.Frames = s.Frames[:i]
 			var rv Value
 			if onret != nil {
